@@ -77,6 +77,37 @@ fn queries(tier: Tier) -> Vec<String> {
         }
     }
     if tier == Tier::Thorough {
+        // every ordered pair of the shared quantity list as a product and as a quotient (the unit the
+        // tool chooses to display is printed, whatever it is), four results in one query, every
+        // documented unit under every typeable prefix symbol, and every shipped fact by its own words
+        let quants: Vec<String> = crate::props::c04::QUANT.iter().map(|(l, u)| format!("{l} {u}")).collect();
+        for x in &quants {
+            for y in &quants {
+                v.push(format!("{x} * {y}"));
+                v.push(format!("{x} / ({y})"));
+            }
+        }
+        for a in elems {
+            for b in elems {
+                for c in elems {
+                    for d in elems {
+                        v.push(format!("({a}) ({b}) ({c}) ({d})"));
+                    }
+                }
+            }
+        }
+        for u in crate::tables::UNITS {
+            let Some(n) = u.names.iter().find(|n| crate::tables::typeable(n)) else { continue };
+            for (pfx, _, _) in crate::tables::PREFIXES.iter().filter(|p| crate::tables::typeable(p.0)) {
+                v.push(format!("2 {pfx}{n}"));
+                v.push(format!("1 {pfx}{n}"));
+            }
+        }
+        for c in crate::refdb::constants() {
+            if crate::props::c16::typeable_phrase(&c.tokens) {
+                v.push(c.tokens.join(" "));
+            }
+        }
         for a in VALUES {
             for b in ["+", "-", "*", "/"] {
                 for c in ["3", "0", "(1 / 7)"] {
@@ -187,10 +218,15 @@ fn word_candidates(word: &str) -> Vec<(i32, &'static crate::tables::UnitDef, boo
         }
     }
     // names the tool prints but does not read: `fl oz` for floz, the conventional symbol `g` for gforce
+    // (also under a prefix: `Efl oz`, `kg` for kilo-gforce)
     for (shown, name) in [("fl oz", "floz"), ("fl ozs", "floz"), ("g", "gforce")] {
+        let Some(u) = crate::tables::find_by_name(name) else { continue };
         if word == shown {
-            if let Some(u) = crate::tables::find_by_name(name) {
-                out.push((0, u, shown.ends_with("ozs")));
+            out.push((0, u, shown.ends_with("ozs")));
+        }
+        for (sym, _, e) in crate::tables::PREFIXES {
+            if word.strip_prefix(sym) == Some(shown) {
+                out.push((*e, u, shown.ends_with("ozs")));
             }
         }
     }
@@ -330,7 +366,7 @@ impl Prop for C19 {
         false
     }
     fn rule(&self) -> String {
-        "query family: 14 value shapes (1, -1, 0, integers, terminating and repeating fractions, 1e13, 1e-13, 15-digit decimals, a value one ulp below 1) x 9 unit shapes, negative tiny/huge values, all ordered pairs and triples of 6 result kinds in one query, (none, m, km, pluralising `decade`/`btu`, m/s, no-numerator /s, m^2, compound) in two spellings, fact phrases with a unique best match, README examples, erroring queries, multi-result queries with an error between values, degenerate input; x {default, --exact}; each run through the real `any` binary (built from /repo by the check, on-disk index in a private data directory) and compared with the text rebuilt from the library's results by the stated rule (line per Ok result; `error: <message>` diagnostic per Err result, in order; a diagnostic may be on stdout, in order with the value lines, or on stderr, in order among the diagnostics). Non-trivial = the query yields at least one result; distinct = distinct (query, mode)".into()
+        "query family: 14 value shapes (1, -1, 0, integers, terminating and repeating fractions, 1e13, 1e-13, 15-digit decimals, a value one ulp below 1) x 9 unit shapes, negative tiny/huge values, all ordered pairs and triples (thorough: quadruples) of 6 result kinds in one query, thorough: every ordered pair of 62 quantities as a product and a quotient, every documented unit under every prefix symbol, every shipped fact by its own words, (none, m, km, pluralising `decade`/`btu`, m/s, no-numerator /s, m^2, compound) in two spellings, fact phrases with a unique best match, README examples, erroring queries, multi-result queries with an error between values, degenerate input; x {default, --exact}; each run through the real `any` binary (built from /repo by the check, on-disk index in a private data directory) and compared with the text rebuilt from the library's results by the stated rule (line per Ok result; `error: <message>` diagnostic per Err result, in order; a diagnostic may be on stdout, in order with the value lines, or on stderr, in order among the diagnostics). Non-trivial = the query yields at least one result; distinct = distinct (query, mode)".into()
     }
     fn assumptions(&self) -> Vec<String> {
         vec![
